@@ -798,6 +798,137 @@ def api_entries():
     return overloads, explicit
 
 
+# ---- non-integer typed entry points (bool, double with / without tolerance, string, the three pointer kinds, memory buffer)
+X_PARAMS = {"boolvalue": "bool", "doublevalue": "double", "doublevalue,doubletolerance": "double2",
+            "constchar*value": "string", "void*value": "ptr", "constvoid*value": "cptr", "void(*value)()": "fptr",
+            "constunsignedchar*value,size_tsize": "membuf"}
+X_ARGS = {"bool": "value", "double": "value", "double2": "value,tolerance", "string": "value", "ptr": "value", "cptr": "value",
+          "fptr": "value", "membuf": "value,size"}
+X_ACTUAL = ["bool", "double", "string", "ptr", "cptr", "fptr", "membuf"]      # the actual side has no tolerance argument
+# the local variable may have any name; on the expectation side storing the argument and linking the new value into the list
+# are independent statements (either order)
+X_TEMPLATES = {
+    "actual": [r"MockNamedValue(?P<v>\w+)\(name\);(?P=v)\.(?P<set>\w+\([\w,]*\));checkInputParameter\((?P=v)\);return\*this;"],
+    "expected": [r"MockNamedValue\*(?P<v>\w+)=newMockExpectedFunctionParameter\(name\);inputParameters_->add\((?P=v)\);"
+                 r"(?P=v)->(?P<set>\w+\([\w,]*\));return\*this;",
+                 r"MockNamedValue\*(?P<v>\w+)=newMockExpectedFunctionParameter\(name\);(?P=v)->(?P<set>\w+\([\w,]*\));"
+                 r"inputParameters_->add\((?P=v)\);return\*this;"]}
+
+
+def api_entries_x():
+    """(a) the inline `withParameter(name, <non-integer argument(s)>)` overloads and the explicit method each forwards to, with the
+    arguments passed on in order; (b) the explicit methods of the checked call classes: which setter call stores the argument(s)
+    (`setValue(value)`, `setValue(value,tolerance)`, `setMemoryBuffer(value,size)` — recorded as found, compared with the
+    required table by a proof obligation)."""
+    import re
+    from .common import read, strip_comments, function_body
+    overloads, explicit = [], []
+    for cls, hdr, base, src, impl, _ in CALL_CLASSES:
+        h = strip_comments(read(hdr))
+        found = {}
+        for m in re.finditer(r"%s\s*&\s*withParameter\s*\(\s*const\s+SimpleString\s*&\s*name\s*,\s*(.*?)\)\s*\{\s*return\s+(\w+)\s*"
+                             r"\(\s*name\s*,\s*([\w ,]*?)\s*\)\s*;\s*\}" % base, h):
+            params = re.sub(r"\s+", "", m.group(1))
+            if params not in X_PARAMS:
+                continue                                  # the integer overloads: api_entries()
+            k = X_PARAMS[params]
+            if k in found:
+                raise TranslateError("%s: two withParameter overloads for (%s)" % (base, params))
+            args = re.sub(r"\s+", "", m.group(3))
+            if args != X_ARGS[k]:
+                raise TranslateError("%s::withParameter(name, %s) passes (%s) on instead of (%s)" % (base, params, args, X_ARGS[k]))
+            found[k] = m.group(2)
+        want_kinds = X_ACTUAL if cls == "actual" else X_ACTUAL + ["double2"]
+        for k in want_kinds:
+            if k not in found:
+                raise TranslateError("%s::withParameter for %s is not an inline forwarder `return withX(name, …);`" % (base, k))
+            overloads.append((cls, k, found[k]))
+        for k in found:
+            if k not in want_kinds:
+                raise TranslateError("%s::withParameter has an unmodelled overload of kind %s" % (base, k))
+        c = strip_comments(read(src))
+        seen = set()
+        for m in re.finditer(r"%s::(with\w+Parameter)\s*\(\s*const\s+SimpleString\s*&\s*name\s*,\s*([^{;]*?)\)\s*\{" % impl, c):
+            params = re.sub(r"\s+", "", m.group(2))
+            if params not in X_PARAMS:
+                continue
+            k, meth = X_PARAMS[params], m.group(1)
+            if (meth, k) in seen:
+                raise TranslateError("%s::%s(%s) is defined twice" % (impl, meth, params))
+            seen.add((meth, k))
+            body = nows_outside_strings(function_body(c[m.start():], re.escape(m.group(0)[:-1]).replace("\\ ", "\\s*") + r"\{"))
+            mm = None
+            for t in X_TEMPLATES[cls]:
+                mm = mm or re.fullmatch(t, body)
+            if not mm:
+                raise TranslateError("%s::%s(%s) does not store its argument through one setter call: `%s`" % (impl, meth, params, body[:200]))
+            explicit.append((cls, meth, k, mm.group("set")))
+        for (_, k, meth) in [o for o in overloads if o[0] == cls]:
+            if (meth, k) not in seen:
+                raise TranslateError("%s::%s for an argument of kind %s not found" % (impl, meth, k))
+    return overloads, explicit
+
+
+def has_input_parameter():
+    """`MockCheckedExpectedCall::hasInputParameter`: which operand's `equals` is asked (the receiver is the LEFT operand)"""
+    import re
+    from .common import read, strip_comments, function_body
+    e = strip_comments(read("src/CppUTestExt/MockExpectedCall.cpp"))
+    body = nows_outside_strings(function_body(e, r"bool\s+MockCheckedExpectedCall::hasInputParameter\s*\(\s*const\s+MockNamedValue\s*&\s*parameter\s*\)\s*\{"))
+    m = re.fullmatch(r"MockNamedValue\*(?P<v>\w+)=inputParameters_->getValueByName\(parameter\.getName\(\)\);"
+                     r"return\(?(?P=v)\)?\?(?P<call>.*?):ignoreOtherParameters_;", body)
+    if not m or m.group("v") == "parameter":
+        raise TranslateError("MockCheckedExpectedCall::hasInputParameter changed shape: `%s`" % body[:200])
+    v, call = m.group("v"), m.group("call")
+    if call == "%s->equals(parameter)" % v:
+        return "equalsGen p parameter"
+    if call in ("parameter.equals(*%s)" % v, "parameter.equals(*(%s))" % v):
+        return "equalsGen parameter p"
+    raise TranslateError("MockCheckedExpectedCall::hasInputParameter: comparison `%s` not understood" % call[:120])
+
+
+# ---- the data store of MockSupport: setData overloads / setDataObject / setDataConstObject, retrieveDataFromStore, getData
+D_PARAMS = {"boolvalue": "bool", "intvalue": "int", "unsignedintvalue": "uint", "doublevalue": "double", "constchar*value": "string",
+            "void*value": "ptr", "constvoid*value": "cptr", "void(*value)()": "fptr",
+            "constSimpleString&type,void*value": "obj", "constSimpleString&type,constvoid*value": "cobj"}
+
+
+def data_setters():
+    """rows (method, kind of the argument list, the setter call made on the stored value): every `MockSupport::setData` overload,
+    `setDataObject`, `setDataConstObject`; each body must be `MockNamedValue* newData = retrieveDataFromStore(name); newData-><setter>;`.
+    Shape-checked: retrieveDataFromStore (existing value of that name, else a new one appended), getData (copy of the value, a
+    fresh MockNamedValue("") when there is none), hasData."""
+    import re
+    from .common import read, strip_comments, function_body
+    c = strip_comments(read("src/CppUTestExt/MockSupport.cpp"))
+    rows, seen = [], set()
+    for m in re.finditer(r"void\s+MockSupport::(setData|setDataObject|setDataConstObject)\s*\(\s*const\s+SimpleString\s*&\s*name\s*,\s*([^{;]*?)\)\s*\{", c):
+        params = re.sub(r"\s+", "", m.group(2))
+        if params not in D_PARAMS:
+            raise TranslateError("MockSupport::%s(name, %s): unmodelled argument list" % (m.group(1), params))
+        k = D_PARAMS[params]
+        if (m.group(1), k) in seen:
+            raise TranslateError("MockSupport::%s(%s) is defined twice" % (m.group(1), params))
+        seen.add((m.group(1), k))
+        body = nows_outside_strings(function_body(c[m.start():], re.escape(m.group(0)[:-1]).replace("\\ ", "\\s*") + r"\{"))
+        mm = re.fullmatch(r"MockNamedValue\*(?P<v>\w+)=retrieveDataFromStore\(name\);(?P=v)->(\w+\([\w,]*\));", body)
+        if not mm:
+            raise TranslateError("MockSupport::%s(%s) is not `retrieveDataFromStore(name)-><one setter call>`: `%s`" % (m.group(1), params, body[:200]))
+        rows.append((m.group(1), k, mm.group(2)))
+    for sig, want in (
+            (r"MockNamedValue\s*\*\s*MockSupport::retrieveDataFromStore\s*\(\s*const\s+SimpleString\s*&\s*name\s*\)\s*\{",
+             "MockNamedValue*newData=data_.getValueByName(name);if(newData==NULLPTR){newData=newMockNamedValue(name);data_.add(newData);}returnnewData;"),
+            (r"MockNamedValue\s+MockSupport::getData\s*\(\s*const\s+SimpleString\s*&\s*name\s*\)\s*\{",
+             'MockNamedValue*value=data_.getValueByName(name);if(value==NULLPTR)returnMockNamedValue("");return*value;'),
+            (r"bool\s+MockSupport::hasData\s*\(\s*const\s+SimpleString\s*&\s*name\s*\)\s*\{", "returndata_.getValueByName(name)!=NULLPTR;")):
+        got = nows_outside_strings(function_body(c, sig))
+        if got != want:
+            raise TranslateError("data store changed shape: %s is now `%s`" % (sig[:50], got[:200]))
+    if not rows:
+        raise TranslateError("no MockSupport::setData overloads found")
+    return rows
+
+
 def generate():
     check_callee_shapes()
     docs = clang_ast()
@@ -902,6 +1033,25 @@ def generate():
             "    parameter type; the body stores `value` through the `setValue` overload of that type) -/",
             "def cppExplicit : List (String × String × String) :=",
             "  [ " + ",\n    ".join("(%s, %s, %s)" % tuple(map(lean_str, x)) for x in explicit) + " ]", ""]
+    overloads_x, explicit_x = api_entries_x()
+    out += ["/-- C++ `withParameter(name, <non-integer argument(s)>)` overloads: (call class, kind of the argument list, explicit method",
+            "    the inline forwarder passes the arguments on to, in order) -/",
+            "def cppOverloadsX : List (String × String × String) :=",
+            "  [ " + ",\n    ".join("(%s, %s, %s)" % tuple(map(lean_str, x)) for x in overloads_x) + " ]", "",
+            "/-- explicit typed methods for non-integer arguments: (call class, method, kind of its argument list, the one setter call",
+            "    that stores the argument(s) in the new parameter value) -/",
+            "def cppExplicitX : List (String × String × String × String) :=",
+            "  [ " + ",\n    ".join("(%s, %s, %s, %s)" % tuple(map(lean_str, x)) for x in explicit_x) + " ]", "",
+            "/-- `bool MockCheckedExpectedCall::hasInputParameter(const MockNamedValue& parameter)`; `found` = the expectation's own",
+            "    parameter of that name (`inputParameters_->getValueByName(parameter.getName())`), `parameter` = the actual one -/",
+            "def hasInputParameterGen (found : Option MVal) (parameter : MVal) (ignoreOtherParameters_ : Bool) : Bool :=",
+            "  match found with",
+            "  | some p => %s" % has_input_parameter(),
+            "  | none => ignoreOtherParameters_", ""]
+    out += ["/-- `MockSupport::setData` overloads, `setDataObject`, `setDataConstObject`: (method, kind of the argument list, the setter",
+            "    call made on the value found or created by `retrieveDataFromStore(name)`) -/",
+            "def dataSetters : List (String × String × String) :=",
+            "  [ " + ",\n    ".join("(%s, %s, %s)" % tuple(map(lean_str, x)) for x in data_setters()) + " ]", ""]
     out += ["/-- integer return-value readers: (level: call = MockCheckedActualCall, support = MockSupport; reader; kind of its return",
             "    type; plain ↦ the MockNamedValue getter it ends in / orDefault ↦ the plain reader used when a return value exists) -/",
             "def retReaders : List (String × String × String × String × String) :=",
